@@ -15,6 +15,7 @@ import GenlmModel.Model.Earley
 import GenlmModel.Model.Compose
 import GenlmModel.Model.Cert
 import GenlmModel.Model.Linear
+import GenlmModel.Model.Tarjan
 import GenlmModel.Generated.Semiring
 /-! Operation dispatch of the driver: one JSON object in, one JSON object out. -/
 namespace Genlm
@@ -626,10 +627,33 @@ def opFsmToWfsa (j : Json) : E Json := do
   pure (Json.mkObj [("start", pj A.start), ("stop", pj A.stop),
     ("arcs", .arr (A.arcs.map fun e => Json.arr #[.num ⟨e.src, 0⟩, .str (lblStr e.lbl), .num ⟨e.dst, 0⟩, .str (ratToString e.w)]).toArray)])
 
+/-- {"op":"tarjan","roots":[v…],"succ":[[v,[w…]]…],"fuel":N?} → {"blocks":[[…]…],"ok":b,"stack_empty":b} :
+the mirror model `tarjan` of `scc_decomposition(successors, roots)` (`Model/Tarjan.lean`, proved in `Proofs/Tarjan.lean`) run on
+explicit ITERATION ORDERS: `roots` is `list(roots)` and `succ` lists, per node `v`, `list(successors(v))` exactly as the real
+Python sets iterate (a node without an entry has no successors).  `blocks` are the components in emission order, each one the
+list of its nodes in pop order; `ok` is the model's flag (no `KeyError`/`IndexError`, fuel sufficient); the default fuel is the
+number of distinct nodes mentioned (`tarjan_correct` needs no more; `WGraph.tarjanBlocks` uses `nodes.length`). -/
+def opTarjan (j : Json) : E Json := do
+  let roots ← sxList (← getField j "roots")
+  let tbl ← (← getArr (← getField j "succ")).mapM fun e => do
+    match ← getArr e with
+    | [v, l] => pure ((← sxOfJson v), (← sxList l))
+    | _ => throw "bad succ entry"
+  let succ : Sx → List Sx := fun v =>
+    match tbl.find? (fun e => e.1 = v) with
+    | some e => e.2
+    | none => []
+  let nodes := linDedup (roots ++ tbl.flatMap fun e => e.1 :: e.2)
+  let fuel ← optNat j "fuel" nodes.length
+  let s := tjRun succ roots fuel
+  pure (Json.mkObj [("blocks", .arr (s.out.map fun N => Json.arr (N.map sxToJson).toArray).toArray),
+    ("ok", .bool s.ok), ("stack_empty", .bool s.stack.isEmpty), ("fuel", .num ⟨fuel, 0⟩)])
+
 def runOp (j : Json) : E Json := do
   let op ← getStr (← getField j "op")
   if op == "semiring" then return (← opSemiring j)
   if op == "fsm_to_wfsa" then return (← opFsmToWfsa j)
+  if op == "tarjan" then return (← opTarjan j)
   let R ← match j.getObjVal? "R" with | .ok (.str r) => pure r | _ => pure "Float"
   match R with
   | "Float" | "Real" => (match op with
